@@ -17,56 +17,14 @@ def _m(pid, level, rule, assumptions, workers=(1, 16), technique="", text="", no
     )
 
 
-_m(
-    "C20",
-    "exploration",
-    "Hypothesis draws (array of dtype int8..uint64/float32/float64, size 2..40, 1-3 dims, >=2 distinct finite values, "
-    "NaN/inf sprinkled in float arrays, integer regimes full-range/narrow/near-max) x interval (quantile lo<hi | manual "
-    "vmin/vmax given or None, python ints or floats | centered vcenter int/float, half_range or None) x stretch (linear | "
-    "power p in [1/30,30] | logarithmic a in [1e-3,1e6] | asinh a in [2e-3,1e3]) x construction route (direct, limits "
-    "frozen from data= as show_2d does, every named preset through _resolve_normalization) x optional second array for the "
-    "frozen norm; plus stretch/inverse round-trip cases over t in [0,1].  A case is NON-TRIVIAL when the data dtype is an "
-    "integer type, or the data contain a NaN, or the stretch is non-linear with a non-default parameter; distinct = SHA-1 "
-    "of the canonical JSON of the whole case.",
-    [
-        "oracle limits are computed in float64 by the harness (own linear-interpolation quantile); implementation limits "
-        "must agree to 1e-11 relative (1e-5 for float32 data)",
-        "tolerance 16 ulp of the working dtype at 1.0 for range/monotonicity (libm log/pow/asinh are not guaranteed monotone "
-        "to the last bit); 1e-9 absolute for stretch round-trips",
-        "data magnitudes are bounded (1e30 float32, 1e150 float64) so vmax - vmin cannot overflow: overflow of the span is "
-        "outside the claimed domain",
-    ],
-    workers=(1, 16),
-    technique="property-based testing (Hypothesis): range/monotonicity/limit laws and inverse round-trips over generated arrays x interval x stretch configurations, float64 limit oracle",
-    text="Generated-input search: every case is judged against the laws in the property (range, monotone, limits -> 0/1, NaN masked, "
-    "stretch o inverse = id) with limits from an independent float64 oracle.  Exploration only: no absence claim.",
-    note="Trusts numpy float64 arithmetic for the oracle limits; span overflow and float16 excluded from the domain.",
-    design="DESIGN.md §3 C20",
-)
+def _load():
+    import importlib
+    import os
+    import pkgutil
 
-_m(
-    "C19",
-    "exploration",
-    "Hypothesis draws histories (1..20 steps) over the real module-level store: set (mapping / keyword '__' / mixed forms, 1-3 items, "
-    "dotted keys, leaf values or nested-mapping values at interior paths), update_defaults (nested mappings), refresh, with-blocks "
-    "(optionally nested, optionally left through an exception) and device requests (23 unavailable/malformed, 4 cpu forms; via "
-    "set_device / set mapping / set kwargs / update_defaults / with).  Keys come from a fixed 3-level schema of 19 paths (own keys and "
-    "real default keys such as viz.cmap, cupy.fft-cache-size) with every component spelled all-'-' or all-'_' at random.  After every "
-    "step every schema path is read with get() in both spellings (+ get(key, default)) and the whole store is compared with a "
-    "reference model.  A history is NON-TRIVIAL when it contains an update_defaults after a set on the same path followed by a "
-    "refresh, or a with-block; distinct = SHA-1 of the canonical JSON of the step list.",
-    [
-        "reference model written from the docstrings: set replaces the addressed subtree, update_defaults overrides a leaf only if absent "
-        "or equal to the previous merged default, refresh = merged defaults in order",
-        "documented ambiguity modelled as an allowed-outcome set: a value written by set that equals the previous default may be kept or "
-        "replaced by the next update_defaults (counted as ambiguous_default_override)",
-        "CPU-only sandbox: every cuda/mps/gpu/index request is 'unavailable'; the accepted-GPU direction cannot be exercised",
-        "mixed '-'/'_' spellings inside one key component and leaf-under-scalar assignments are outside the domain",
-    ],
-    workers=(1, 16),
-    technique="model-based property testing (Hypothesis-generated operation histories against a dictionary reference model, invariant after every step)",
-    text="Generated histories against an independent reference model with an invariant (all paths, both spellings, whole store) after every "
-    "step; exploration only.",
-    note="Trusts the reference model's reading of the docstrings; see assumptions for the one allowed-outcome ambiguity.",
-    design="DESIGN.md §3 C19",
-)
+    d = os.path.join(os.path.dirname(__file__), "metas")
+    for mi in sorted(pkgutil.iter_modules([d]), key=lambda m: m.name):
+        importlib.import_module("vq.metas." + mi.name)
+
+
+_load()
